@@ -129,6 +129,8 @@ pub fn event_message(ev: &Event, index: usize) -> Option<Message> {
                 }
                 "workspace/symbol" => json!({"query": ""}),
                 "textDocument/documentSymbol" | "textDocument/formatting" => json!({"textDocument": {"uri": expand_uri(uri)}, "options": {"tabSize": 2, "insertSpaces": true}}),
+                "textDocument/semanticTokens/full/delta" => json!({"textDocument": {"uri": expand_uri(uri)}, "previousResultId": "1"}),
+                "textDocument/semanticTokens" => json!({"textDocument": {"uri": expand_uri(uri)}}),
                 _ => json!({}),
             };
             Message::Request(Request { id: req_id(index, *id_kind), method: method.clone(), params })
